@@ -9,7 +9,8 @@
     pyteal/ast/assert_.py    Assert.__teal__        v ≥ 3: cond, Comment(comment), `assert`;  v < 3: comment unused
     pyteal/compiler/subroutines.py resolveSubroutines   label = re.sub(r"[^A-Za-z0-9]", "", name) + "_" + str(index)
     pyteal/compiler/flatten.py flattenSubroutines   TealLabel(…, LabelReference(label), comment = subroutine.name())
-    pyteal/ir/teallabel.py   TealLabel.assemble     "\n// {comment}\n" + label + ":"   (the name is NOT sanitised here)
+    pyteal/ir/teallabel.py   TealLabel.assemble     "\n" + one line "// piece" per piece of comment.splitlines() (one line "// " if
+                                                    there is no piece) + "\n" + label + ":"   (the name is NOT sanitised here)
 
   Python strings are modelled as Lean `String`s (sequences of Unicode scalar values); lone
   surrogates, which a Python `str` may hold, are outside the model.
@@ -84,8 +85,24 @@ def sanitise (name : String) : String := String.ofList (name.toList.filter isAln
 def subLabel (name : String) (index : Nat) : String :=
   sanitise name ++ "_" ++ toString index
 
-/-- `TealLabel(decl, LabelReference(label), comment = name).assemble()` -/
+/-- `self.comment.splitlines() or [""]` of `TealLabel.assemble`: the pieces of the comment, and one
+    empty piece when there is none (`""`, and nothing else, has no piece) -/
+def headerPieces (c : String) : List String :=
+  match splitlines c with
+  | [] => [""]
+  | ps => ps
+
+/-- `"// {}".format(ln) for ln in lines`: the comment lines of a label, one per piece -/
+def headerCommentLines (c : String) : List String := (headerPieces c).map commentOp
+
+/-- `TealLabel(decl, LabelReference(label), comment = name).assemble()`:
+    `"\n{}\n".format("\n".join(comment lines)) + label + ":"` -/
 def header (name : String) (index : Nat) : String :=
+  "\n" ++ "\n".intercalate (headerCommentLines name) ++ "\n" ++ subLabel name index ++ ":"
+
+/-- the text BEFORE the repair 90c7383 (`"\n// {}\n".format(self.comment)`: the raw name after `// `);
+    kept only for the regression example `name_comment_regression` -/
+def headerOld (name : String) (index : Nat) : String :=
   "\n// " ++ name ++ "\n" ++ subLabel name index ++ ":"
 
 /-! ## what the assembler sees -/
